@@ -68,6 +68,13 @@ func replayFile(path string) int {
 	case "comp-pair":
 		n := names(f.Replay.A, f.Replay.B)
 		checkCompPair(col, 0, 2, 0, 1, n[0][0], n[1][0])
+	case "aliased":
+		var as aliasStats
+		aliasedName(col, &as, 0, names(f.Replay.A)[0])
+	case "aliased-comp":
+		var as aliasStats
+		n := names(f.Replay.A, f.Replay.B)
+		aliasedComp(col, &as, 0, n[0][0], n[1][0].typ)
 	case "comp-uri":
 		checkCompURI(col, &us, 0, names(f.Replay.A)[0][0])
 	case "name-uri":
